@@ -196,7 +196,7 @@ def run_case(case, sb):
             # (3) :last / :first resolution (collecting serial runs have data.csv)
             for gg in GROUPS:
                 mine = [h for h in history if h["group"] == gg]
-                for prefix in ("2031-", "2031-03-05", "2031-03-06"):
+                for prefix in ("", "2031-", "2031-03-05", "2031-03-06"):
                     cand = [h for h in mine if h["dir"].startswith(prefix) and has_data(sb, h)]
                     allc = [h for h in mine if h["dir"].startswith(prefix)]
                     if not allc or len(cand) != len(allc):
